@@ -200,6 +200,16 @@ func checkC11(r *Report, known []Finding) {
 						r.Dist["haystack>4KiB"]++
 					}
 					mu.Unlock()
+					if res == "TIMEOUT" {
+						// the whole bundle of ~20 views did not finish in 30 s: slow is not this property's subject (C05 measures work);
+						// only a single call that does not come back is reported
+						if guard(120*time.Second, func() string { cx.Match(h); cx.FindIndex(h); return "" }) == "" {
+							mu.Lock()
+							r.Notes = append(r.Notes, fmt.Sprintf("slow: the views of %.40q on %d bytes took more than 30 s in total (Match and FindIndex alone return)", p, len(h)))
+							mu.Unlock()
+							continue
+						}
+					}
 					if strings.HasPrefix(res, "PANIC") || res == "TIMEOUT" {
 						local = append(local, dis{p, "no-panic/terminates", res + fmt.Sprintf(" len=%d", len(h)), strat})
 						continue
